@@ -95,3 +95,10 @@ Proof.
   - destruct (remove1 x l2) as [l2'|] eqn:E; [|discriminate].
     rewrite (remove1_perm _ _ _ E). constructor. apply IH. assumption.
 Qed.
+
+
+(* SafeMap thresholds regenerated from lib/collection/safemap.go (the refinement theorem holds for any values) *)
+Lemma link_maxDeletion : C10_Gen.maxDeletion = 10000%Z.
+Proof. reflexivity. Qed.
+Lemma link_copyThreshold : C10_Gen.copyThreshold = 1000%Z.
+Proof. reflexivity. Qed.
